@@ -34,7 +34,9 @@ Definition check_c03 (c : c03case) : N :=
       | Some x, Some y =>
           if negb (u_valid url) then 1
           else if negb (headers_ok cfg b) then 1
-          else if built_ok cfg url kid b x && built_ok cfg url kid b y && negb (bytes_eqb (bm_nonce x) (bm_nonce y)) then 0 else 1
+          (* code 2: a request was built that is not the configured URL plus cup2key=<latest id>:<64 hex> with metadata = wire,
+             or two builds share a nonce - the property's own statement fails on this input *)
+          else if built_ok cfg url kid b x && built_ok cfg url kid b y && negb (bytes_eqb (bm_nonce x) (bm_nonce y)) then 0 else 2
       | None, None =>
           (* outside the absolute / origin-form URLs the model only requires "no panic" (absolute = false) *)
           if absolute && u_valid url && headers_ok cfg b then 1 else 0
